@@ -510,6 +510,28 @@ func preamble(t *testing.T) bool {
 			}
 		}
 	}
+	// an application-registered element of a fixed-size type declared with a shorter length: whatever
+	// the collector makes of its data, it must survive it
+	{
+		glue.UserFields()
+		rt := ref.TemplateMessage(ref.Header{Domain: 1}, ref.Template{ID: 256, Fields: []ref.Field{{ID: 8, Len: 4}, {ID: glue.ReducedU32.ID, Ent: glue.ReducedU32.Ent, Len: 2}, {ID: 4, Len: 1}}})
+		for _, mode := range modes {
+			for _, n := range []int{2, 6, 7, 14, 21} {
+				col := newCol(Case{Mode: mode, Proto: "tcp"})
+				for k, pkt := range [][]byte{rt, ref.EncodeMessage(ref.Header{Domain: 1}, 256, bytes.Repeat([]byte{1, 2, 3, 4, 5, 6, 7}, 3)[:n])} {
+					dr := col.Decode(pkt, "10.1.2.3:4739")
+					if dr.Hung || dr.Panic != "" {
+						c := Case{Mode: mode, Proto: "tcp", Packets: [][]byte{rt, pkt}}
+						msg := fmt.Sprintf("registry holding an unsigned32 element declared with length 2: packet %d: decoding panicked or hung (this crashes the collecting process): %s%s", k, dr.Panic, dr.HungWhy)
+						rec.Violation("preamble", c, msg)
+						t.Errorf("preamble: %s", msg)
+						return false
+					}
+				}
+				rec.Case(ev.Hash([]any{"reduced", mode, n}), true, "enum_reduced_size_registered_element")
+			}
+		}
+	}
 	// degenerate templates: zero fields, single zero-length unknown element, followed by data
 	zero := ref.TemplateMessage(ref.Header{Domain: 1}, ref.Template{ID: 256})
 	zlen := ref.TemplateMessage(ref.Header{Domain: 1}, ref.Template{ID: 256, Fields: []ref.Field{{ID: 20001, Len: 0}}})
